@@ -37,6 +37,10 @@ CHECKS = {
    text="A parameter grid (1..300 live variables x requested-id patterns incl. adjacent runs, 0/255 and duplicates x DynamicScratchVar views x main/subroutine placement x option settings) is enumerated completely; every variable receives a distinct marker and is read back. TLC runs each compiled text on spec/AVM.tla against the cell semantics of spec/PyTealSem.tla (read-back, index(), DynamicScratchVar) and compares all option settings incl. final user-numbered slots (spec/Refine.tla); TLC judges compile outcomes against the slot-limit model of spec/Accepts.tla (spec/Compile.tla).",
    note="frame-local ABI storage is covered by the ABI checks; the 256 limit is judged on unoptimised compilations only (the optimiser may legitimately remove a variable)",
    tech="TLA+ refinement + outcome validation (TLC): exhaustive parameter grid of many-variable programs executed on the AVM spec vs cell semantics; slot-limit model"),
+ "C11": dict(cat="model_checking", ref="5 C11",
+   text="spec/Process.tla models the process-global state (frame marker consulted by ABI constructors, instances built under it) with API calls as actions; TLC explores all histories to depth 5/6 checking HistoryIndependence and MarkerRestored (the variant without restore must violate them). Histories generated by TLC (all of depth 3, sampled; seeded simulation to depth 6/8) are replayed in a real interpreter, one forked child each; every event records the marker and whether the TEAL equals the fresh-process TEAL (identical under 3 hash seeds); spec/ProcessTrace.tla validates each trace event by event.",
+   note="the catalogue of 7 program kinds + 3 failing compilations stands for 'all programs'; one recorded finding (router re-compilation)",
+   tech="TLA+ model of process-global state (TLC) + trace validation of replayed API histories against it; fresh-process/hash-seed references"),
  "C12": dict(cat="model_checking", ref="5 C12",
    text="Programs loading constant multisets (structured families, frequency ladders, every spelling of one byte value, enums, templates, addresses, selectors, >255 distinct repeated constants, seeded random multisets) are compiled with assembleConstants off/on at versions 3..10. TLC (spec/Refine.tla) checks site by site that each constant-load instruction of the assembled text - block indices resolved through intcblock/bytecblock - pushes the value of the pseudo-op text, that the remaining instruction streams are identical, and runs both texts on spec/AVM.tla against the source meaning (constants are logged).",
    note="template placeholders get one deterministic stand-in value per name; selectors/addresses are decoded by the harness tokenizer",
